@@ -266,7 +266,7 @@ impl Prop for C13 {
     fn meta(&self) -> Meta {
         Meta {
             level: "exploration",
-            rule: "seeded byte string = random prefix (scan offset > 0 in most runs) + optional '-' + digit run of 0..45 digits (biased to 0,1,7,8,9,15,16,17 digits and to MIN/MAX+-{0,1} of the type, with/without leading zeros) + terminator (all 256 byte values, biased to separators, '-', >=0x80, end of input) + random tail; a real DeferredReader over a SimSource is brought to exactly b buffered bytes (b uniform in 0..=len; b selects the 8-byte or the byte-wise path) and the rest arrives under a random plan; both the *_multi and the simple variant are called for all 12 integer types and both scanner families and compared with a decimal-string reference; non-trivial iff the digit run is non-empty; distinct = distinct (type, family, bytes, offset, b)",
+            rule: "seeded byte string = random prefix (scan offset > 0 in most runs) + optional '-' + digit run of 0..45 digits (biased to 0,1,7,8,9,15,16,17 digits and to MIN/MAX+-{0,1} of the type, with/without leading zeros; fixed-width fields: 1..300 zeros in front of a type limit, a shorter value, nothing, or limit x 10) + terminator (all 256 byte values, biased to separators, '-', >=0x80, end of input) + random tail; a real DeferredReader over a SimSource is brought to exactly b buffered bytes (b uniform in 0..=len; b selects the 8-byte or the byte-wise path) and the rest arrives under a random plan; both the *_multi and the simple variant are called for all 12 integer types and both scanner families and compared with a decimal-string reference; non-trivial iff the digit run is non-empty; distinct = distinct (type, family, bytes, offset, b)",
             assumptions: vec![
                 "reference reading compares decimal strings (strip leading zeros, length then lexicographic order against the type's MIN/MAX strings)",
                 "the 8-byte kernel is sampled, not enumerated: the evidence reports how many of the 9*256 (digit count, terminator byte) kernel cases were hit",
